@@ -304,8 +304,10 @@ def build_props(pid, jobs=16):
             except OSError:
                 pass
         t0 = time.time()
-        p = subprocess.run(['timeout', str(COQ_TIMEOUT), 'make', '-j%d' % jobs,
-                            rel[:-2] + '.vo'], cwd=COQ, stdout=subprocess.PIPE,
+        targets = sorted('%s/%s' % (pid, f[:-2] + '.vo') for f in os.listdir(os.path.join(COQ, pid))
+                         if f.endswith('.v'))
+        p = subprocess.run(['timeout', str(COQ_TIMEOUT), 'make', '-j%d' % jobs] + targets,
+                           cwd=COQ, stdout=subprocess.PIPE,
                            stderr=subprocess.STDOUT, text=True)
         log = p.stdout
     finally:
